@@ -8,7 +8,7 @@ Go code, every map iteration an explicit visit order) and the declarative resolu
 What is proved for ALL programs, ALL visit orders, ALL fuel: the linker binds every type
 reference as the spec designates (`link_binds_spec`) and every root it stores is the
 declarative root (`link_refines_spec_partial`). What the pinned code gets wrong is
-reproduced by the model and proved by evaluation: D10 (`link_order_dependent`), D41
+reproduced by the model and proved by evaluation: D10 (`link_order_dependent`), D50
 (`acceptance_order_dependent`), D17 (`enum_item_not_cast`).
 -/
 import ThriftVerif.Compile.LinkProofs
@@ -88,8 +88,8 @@ theorem link_binds_spec (p : GProg) (fuel m : Nat) (e : TExpr) (σ σ' : St) (lt
 /-- **The linker refines the spec, for every visit order (partial).** After a successful
 `compile.Compile` / `CompileWithLinkOrder` under ANY visit orders `o` (and any fuel), every
 typedef root the linker has stored is the declarative root. *Partial*: a typedef can also be
-left with a nil root — only by re-entrant linking (D10, `link_order_dependent`) — and the
-theorem says nothing about such a typedef; constants and defaults are tied to `castConst` by
+left with a nil root — only by re-entrant linking (D10, `link_order_dependent`) — and nothing
+is claimed about such a typedef; constants and defaults are tied to `castConst` by
 the correspondence harness, not by this theorem. With D10 repaired every root is non-nil and
 the hypothesis `alookup … = some (some r)` is always met. -/
 theorem link_refines_spec_partial {pre : Bool} {fuel : Nat} {o : Orders} {src : Program} {c : Compiled}
@@ -136,12 +136,12 @@ theorem link_order_dependent :
       some (some none) := by
   constructor <;> decide +kernel
 
-/-- **Negation on the pinned tree (D41): whether the program is accepted depends on the link
+/-- **Negation on the pinned tree (D50): whether the program is accepted depends on the link
 order.** `struct S {1: optional T t; 2: optional E e = 1}  struct T {1: optional S s = {}}
 enum E {X = 1}` is rejected when `S` is linked first and accepted when `T` is. -/
 theorem acceptance_order_dependent :
-    (compile 100 [{ types := [nm "S"] }] progD41).isOk = false ∧
-    (compile 100 [{ types := [nm "T"] }] progD41).isOk = true := by
+    (compile 100 [{ types := [nm "S"] }] progD50).isOk = false ∧
+    (compile 100 [{ types := [nm "T"] }] progD50).isOk = true := by
   constructor <;> rfl
 
 /-- **Negation on the pinned tree (D17): an enum item is not cast to the declared type.**
